@@ -94,9 +94,15 @@ def all_cfgs(tier):
 
 
 def cost_ms(cfg):
+    """rough cost of one simulated cycle (compiled simulator + drivers), only used to balance the shards"""
     k, bc, wto = cfg
-    w = k * bc
-    return 0.03 + 0.0011 * w * (4.0 if w > 384 else 1.0)
+    return 0.08 + 0.0013 * k * bc
+
+
+def build_ms(cfg):
+    """rough cost of elaborating + compiling one configuration in a process"""
+    k, bc, wto = cfg
+    return 60 + 0.008 * (k * bc) ** 2
 
 
 # ---------------------------------------------------------------------------------------------------
@@ -606,7 +612,7 @@ def inject_masks():
 
 def batch_plan(cfg, tier, key):
     """(reads per batch, data words per batch, words per flip, number of batches incl. the flip-CSR batches)"""
-    nd = 4 if tier == "quick" else (8 if cfg[1] == 8 else 4)
+    nd = 4 if tier == "quick" else 8
     per = 1 if tier == "quick" else nd
     fpb = 48 if tier == "quick" else max(1, 96 // per)
     nit = len(flip_items(cfg, tier, key))
@@ -760,14 +766,26 @@ def ddmin_case(case, fails, budget=120):
         trial.update(simpler)
         if ok(trial):
             cur = trial
+    k, bc, wto = cur["cfg"]
+    lb = k // 8
+    fb = full_be(cur["cfg"])
     for si, seg in enumerate(cur["segs"]):
         for oi, op in enumerate(seg["ops"]):
-            for fld, val in (("gap", 0), ("lead", 0), ("data", 0)):
-                if op.get(fld):
+            for fld, val in (("gap", 0), ("lead", 0), ("data", 0), ("data", (1 << (k * bc)) - 1)):
+                if op.get(fld) and cur["segs"][si]["ops"][oi].get(fld) != val and (fld != "data" or cur["segs"][si]["ops"][oi]["data"] != 0):
                     trial = copy.deepcopy(cur)
                     trial["segs"][si]["ops"][oi][fld] = val
                     if ok(trial):
                         cur = trial
+            if op["we"] and op["be"] != fb:
+                for ln in range(bc):          # drop the enables of whole lanes while the clause still shows
+                    be = cur["segs"][si]["ops"][oi]["be"]
+                    lm = ((1 << lb) - 1) << (ln * lb)
+                    if be & lm and be & ~lm:
+                        trial = copy.deepcopy(cur)
+                        trial["segs"][si]["ops"][oi]["be"] = be & ~lm
+                        if ok(trial):
+                            cur = trial
     return cur
 
 
@@ -930,16 +948,17 @@ def shards(tier, seed):
         cyc = fpb * per * 1.4 + nd * 2 + 12
         total = nb * cyc * cost_ms(cfg)
         units.append((total, cfg, nb, cyc))
-    grand = sum(u[0] for u in units)
-    target = grand / (NFLIP * 3.0)
+    grand = sum(u[0] + build_ms(u[1]) for u in units)
+    target = grand / float(NFLIP)
     pieces = []
     for total, cfg, nb, cyc in units:
-        np_ = int(min(NFLIP, max(1, round(total / target)), nb))
+        # splitting a configuration costs one more elaboration + compilation per piece
+        np_ = int(min(NFLIP, nb, max(1, round(total / max(target / 2.0, 2.0 * build_ms(cfg))))))
         for i in range(np_):
             b0 = nb * i // np_
             b1 = nb * (i + 1) // np_
             if b1 > b0:
-                pieces.append(((b1 - b0) * cyc * cost_ms(cfg) + 150 * cost_ms(cfg), cfg, b0, b1))
+                pieces.append(((b1 - b0) * cyc * cost_ms(cfg) + build_ms(cfg), cfg, b0, b1))
     pieces.sort(key=lambda p: (-p[0], p[1], p[2]))
     load = [0.0] * NFLIP
     work = [[] for _ in range(NFLIP)]
@@ -1148,14 +1167,28 @@ def run_hyp_shard(sh):
     return col.result(rec.violation())
 
 
+def _roomy(fn, nslots=33000):
+    """Performance only.  CPython >= 3.11 keeps frames on a chunked data stack; a frame that does not fit into the current
+    16 KB chunk gets a chunk of its own, mmap-ed at the call and unmapped at the return.  The compiled comb function of the
+    8-lane devices has ~3600 locals, so every simulated cycle paid two mmap/munmap pairs plus page faults (measured: 11 ms per
+    cycle, 85 % of it system time; stock migen.sim's deep recursion suffers the same).  Calling the work from a function whose
+    own frame forces a 512 KB chunk leaves ~250 KB of that chunk free for the nested frames (0.7 ms per cycle)."""
+    src = "def big(fn):\n " + "=".join("a%d" % i for i in range(nslots)) + "=None\n return fn()\n"
+    ns = {}
+    exec(src, ns)
+    return ns["big"](fn)
+
+
 def run_shard(sh):
     if sh["kind"] == "flip":
-        return run_flip_shard(sh)
-    return run_hyp_shard(sh)
+        return _roomy(lambda: run_flip_shard(sh))
+    return _roomy(lambda: run_hyp_shard(sh))
 
 
 def replay(case):
-    col = Collector(ID)
-    obs = evaluate(case, "migen")
-    fs, _ = oracle(case, obs, case.get("part", "secded"), book=secded.CodeBook(case["cfg"][0]))
-    return quiet_filter(col, fs)
+    def go():
+        col = Collector(ID)
+        obs = evaluate(case, "migen")
+        fs, _ = oracle(case, obs, case.get("part", "secded"), book=secded.CodeBook(case["cfg"][0]))
+        return quiet_filter(col, fs)
+    return _roomy(go)
